@@ -22,6 +22,9 @@ EXHAUSTIVE_NOTE = ("small-scope: every history up to the stated length over the 
 ASSUMPTIONS = ["descriptor identity = pool index (pointer identity on the Go side)",
                "cap = len convention for the slice expressions of state.go (DESIGN section 3): the model panics where Go would "
                "re-slice past len within cap; under the proved invariant neither happens"]
+TRUSTED_EXTRA = ["Spec/Trackers.v (17 clauses with ghost sets) as the reading of the C10 text; proved to accept the model for every history "
+                 "with at most 10 distinct signal times (C10_checker_accepts_model); clause 14 accepts the VSS lookup error (37) after itself",
+                 "descriptor identity = pool position (goexec: pointer identity of the objects it built)"]
 PARTIAL = ("no-duplicate / not-reopened clauses are proved under the hypothesis that at most 10 ring entries were written "
            "(the 10-entry ring of signal times forgets; known finding, refuted witness C10_no_reopen_unconditional_refuted)")
 
